@@ -36,6 +36,16 @@ def _generic_snapshot():
             elif v is None or type(v) in (bool, int, float, str, bytes, tuple, frozenset):
                 # module-level flags ("already loaded", counters, ...)
                 snap.append((mod, name, 'scalar', v))
+            elif type(v).__module__ == 'itertools':
+                # module-level iterators (cycle, count, ...) keep a position
+                import copy
+                import warnings
+                try:
+                    with warnings.catch_warnings():
+                        warnings.simplefilter('ignore')     # (copy support of itertools is deprecated)
+                        snap.append((mod, name, 'iterator', copy.copy(v)))
+                except Exception:
+                    pass
     return snap
 
 
@@ -62,6 +72,12 @@ def _generic_reset():
                 cur.clear()
                 for k, x in content:
                     cur[k] = x
+            elif kind == 'iterator':
+                import copy
+                import warnings
+                with warnings.catch_warnings():
+                    warnings.simplefilter('ignore')
+                    setattr(mod, name, copy.copy(content))
             elif kind == 'scalar':
                 if cur is not content and (cur is None or type(cur) in (bool, int, float, str, bytes, tuple, frozenset)):
                     setattr(mod, name, content)
